@@ -57,10 +57,15 @@ BUDGET = {"quick": 8000, "thorough": 150000}
 _TIER = "quick"
 
 
-def run_case(item) -> dict:
+def run_case(item, _retry=False) -> dict:
     """One production of one (method, nonterminal): returns plain data (picklable)."""
     gx = get_gx()
     idx, pidx = item
+    ckey = f"{_TIER}/{idx}/{pidx}"
+    if not _retry:
+        hit = core.cache_get("gx", ckey)
+        if hit is not None:
+            return hit
     method, nt_name, fac = method_cases(gx)[idx]
     nt = gx.g.nts[nt_name]
     out = dict(method=method, nt=nt_name, prods=[], runs=0, time=0.0)
@@ -71,13 +76,17 @@ def run_case(item) -> dict:
     for p in nt.prods[pidx:pidx + 1]:
         rec = dict(label=p.label, note=p.note, runs=0, ok=0, fails=[], term=[], coord=[], scope=[], cost=[], notes=[], samples=[])
         fols = {id(fs): follows_for(gx, method, nt_name, p) for fs in [p]}[id(p)]
-        per = max(600 if _TIER == "quick" else 6000, BUDGET[_TIER] // max(1, len(p.flat) * len(fols)))
+        per = max(600 if _TIER == "quick" else 6000, BUDGET[_TIER] // max(1, len(p.flat) * len(fols))) * (12 if _retry else 1)
+        depths = (1, 2) if method in SCOPE_SENSITIVE else (1,)
+        per = max(600 if _TIER == "quick" else 6000, BUDGET[_TIER] // max(1, len(p.flat))) * (12 if _retry else 1)
         for flat, shape in p.flat:
-            for fol in fols:
+          for depth in depths:
+            gx.scope_depth = depth   # file scope / inside a block: registration must not depend on it
+            for fol in [None]:
                 args, kwargs = fac(gx, p) if fac else ((), {})
                 outs: List[GXM.Outcome] = []
                 try:
-                    runs, notes = GXM.explore(gx, method, nt_name, p, flat, shape, list(fol), args, kwargs, on_done=outs.append, budget=per)
+                    runs, notes = GXM.explore(gx, method, nt_name, p, flat, shape, [tuple(f) for f in fols], args, kwargs, on_done=outs.append, budget=per)
                 except RecursionError:
                     rec["notes"].append("RecursionError in the checker")
                     continue
@@ -85,7 +94,8 @@ def run_case(item) -> dict:
                 rec["notes"] += notes
                 inv = getattr(gx.g, "invalid_context", None)
                 for oc in outs:
-                    if inv and inv(oc.run, list(fol)):
+                    fol = list(oc.run.follow_used or ())
+                    if inv and inv(oc.run, fol):
                         continue
                     text = oc.run.text()
                     nondefault = any(isinstance(x, GXM.Mark) and x.variant for x in GXM._walk(oc.run.root))
@@ -117,15 +127,21 @@ def run_case(item) -> dict:
                             rec["scope"].append((sd, text, list(fol)))
                     else:
                         rec["fails"].append((oc.kind, oc.detail, text, list(fol), witness_text(gx, oc.run)))
+        if rec["ok"] == 0 and not rec["fails"] and not _retry:
+            # nothing completed within the budget: give this production a much larger one before calling it undecided
+            return run_case(item, _retry=True)
         out["prods"].append(rec)
         out["runs"] += rec["runs"]
     out["time"] = time.time() - t0
+    core.cache_put("gx", ckey, out)
     return out
 
 
 # --------------------------------------------------------------------------------------
 # C04: which names a production must enter into the scope stack (C 6.2.1: ordinary identifiers only)
 # --------------------------------------------------------------------------------------
+SCOPE_SENSITIVE = {"_parse_declaration", "_parse_decl_body", "_parse_decl_body_with_spec", "_parse_external_declaration",
+                   "_parse_enumerator", "_parse_function_decl", "_parse_struct_declaration", "_parse_parameter_declaration"}
 DECLARING = {"_parse_declaration", "_parse_decl_body", "_parse_decl_body_with_spec", "_parse_external_declaration"}
 
 
@@ -452,6 +468,9 @@ MAY_BUDGET = {"quick": 4000, "thorough": 60000}
 
 
 def run_may_case(idx) -> dict:
+    hit = core.cache_get("gxmay", f"{_TIER}/{idx}")
+    if hit is not None:
+        return hit
     gx = get_gx()
     method, nt_name, fac = method_cases(gx)[idx]
     out = dict(method=method, nt=nt_name, runs=0, counts={}, findings=[], notes=[], time=0.0)
@@ -463,6 +482,7 @@ def run_may_case(idx) -> dict:
     runs, counts, findings, notes = GXM.explore_may(gx, method, args, kwargs, budget=MAY_BUDGET[_TIER],
                                                     maxlen=9 if _TIER == "quick" else 11)
     out.update(runs=runs, counts=dict(counts), findings=findings[:50], notes=notes, time=time.time() - t0)
+    core.cache_put("gxmay", f"{_TIER}/{idx}", out)
     return out
 
 
